@@ -124,7 +124,7 @@ func failFast(w *World, r *Report, ro *Roles, rule string) {
 		r.Undecided(rule, "task-change callback", "-", "not resolved")
 		return
 	}
-	res := w.EnumPaths(fn, EnumOpts{Inline: true})
+	res := w.EnumPaths(fn, EnumOpts{Inline: true, Opaque: w.statelessCallee})
 	r.Count("paths", len(res.Paths))
 	bad := ""
 	nCancel := 0
